@@ -838,6 +838,7 @@ Definition step (c : cfg) : res (action * cfg) :=
           o <- apply_match (out c) out_pos (dist c) (ctr c) ;;
           jump DecodeLitlen (set_out c o (out_pos + ctr c))
   | WriteLenBytesToEnd =>
+      if dist_check c then jump DistanceOutOfBounds c else
       left <- bytes_left c ;;
       if 0 <? left then
         let out_pos := pos c in
